@@ -68,6 +68,8 @@ def case_facts(op, case, spelling):
         "view": any(f.get("view") for f in feats),
         "kinds": "|".join(f["kind"] for f in feats),
         "kw": ",".join(sorted(k for k in case["kw"])),
+        "zero_term": any(f.get("zero_term") for f in feats),
+        "dtypes": "|".join(str(s.get("dtype", "")) if s["k"] == "poly" else "" for s in case["operands"]),
     }
 
 
@@ -83,8 +85,9 @@ def signature(op, case, spelling):
         else:
             kwsig.append((key, type(val).__name__))
     return (op.name, spelling, tuple(tuple(f["shape"]) for f in feats),
-            tuple(f["kind"] for f in feats), tuple(kwsig),
-            tuple(f.get("view", "") for f in feats))
+            tuple(f["kind"] + (":" + s["dtype"] if s["k"] == "poly" and s.get("dtype") else "")
+                  for f, s in zip(feats, case["operands"])), tuple(kwsig),
+            tuple(f.get("view", "") for f in feats), tuple(bool(f.get("zero_term")) for f in feats))
 
 
 def run_case(case, ctx, check_meta=True, rtol_float=1e-9):
